@@ -45,6 +45,22 @@ def run(ctx):
             if not oracle.divergent_subsets(table):
                 cases.append(dict(edges=edges, weights=w, massive=massive, ext=ext, D=D, table=table, dod=dod, loops=Lf, accepted=True,
                                   name="tiny_weight"))
+    # parallel propagators with EQUAL powers of which only some are massive (indistinguishable by end points and weight, not by mass)
+    for _ in range(6 if ctx.quick else 40):
+        name = rng.choice(["bubble", "sunrise", "banana4", "bubble_chain", "bubble_leg", "box_doubled"])
+        edges, _, _ = gen.relabel(rng, list(gen.CATALOGUE[name]))
+        D = rng.randint(2, 4)
+        n = len(edges)
+        massive = [rng.random() < 0.5 for _ in range(n)]
+        if all(massive) or not any(massive):
+            massive[0] = not massive[0]
+        ext = sorted(set(v for e in edges for v in e))
+        L = oracle.subset_info(edges, massive, ext, (1 << n) - 1)[0]
+        w = [(L * D / 2.0 + rng.uniform(0.3, 1.5)) / n] * n
+        dod, Lf, table = oracle.table_oracle(edges, w, massive, ext, D)
+        if not oracle.divergent_subsets(table):
+            cases.append(dict(edges=edges, weights=w, massive=massive, ext=ext, D=D, table=table, dod=dod, loops=Lf, accepted=True,
+                              name="parallel_equal_weights_mixed_masses"))
     for c in list(cases[:: 4]):
         for delta in (2.0 ** -60, 1e-17, 1e-13):
             t = graphs.near_threshold(rng, c, delta)
